@@ -47,6 +47,11 @@ def daySumMin (ps : List Period) (d0 d1 : Int) : Rat :=
 def dayCountMin (ps : List Period) (d0 d1 : Int) : Nat :=
   ((minutes d0 d1).filter fun m => (rateAt ps m).isSome).length
 
+/-- `as_freq(series, "D")` for billing data on the minute grid: the day's sum, missing when no minute of the day carries a value
+(`resampled[resampled_with_nans.notnull()]`) -/
+def spreadDayMin (ps : List Period) (d0 d1 : Int) : Option Rat :=
+  if dayCountMin ps d0 d1 = 0 then none else some (daySumMin ps d0 d1)
+
 /-- `downsample_and_clean_daily_data` on the minute grid: coverage = counted minutes / minutes of the day -/
 def downsampleDayMin (ps : List Period) (d0 d1 : Int) : Option Rat :=
   let cov : Rat := ((dayCountMin ps d0 d1 : Nat) : Rat) / ((d1 - d0 : Int) : Rat)
